@@ -98,6 +98,12 @@ CHECKS = {
  'C21': dict(cat='proof', tech='deductive: representation invariant and abstract-view (LIVE set) postconditions on the real RoundRobinPolicy, DCAwareRoundRobinPolicy, WhiteListRoundRobinPolicy, HostFilterPolicy, DefaultLoadBalancingPolicy methods, checked from every policy state over a small host universe with interference injected at lock acquisition',
              text='Every operation is verified from every state over a universe of 5 hosts / 3 datacenter keys (thorough 6/4) for all constructor parameters; event sequences follow by composition over the LIVE view. itertools functions run natively (E-ITER); random start positions enumerated.',
              ref='DESIGN.md §4 C21'),
+ 'C22': dict(cat='proof', tech='deductive: postcondition plan == [live local replicas in replica order] ++ [rest of the child plan] on the real TokenAwarePolicy.make_query_plan with the child policy and the replica lookup as arbitrary oracles; keyspace-update contract on Metadata._update_keyspace/TokenMap.rebuild_keyspace',
+             text='All replica lists (<=2, thorough 3, distinct hosts), child plans, per-host up states and distances over a 4-host universe are enumerated; hosts enter only through equality/is_up/distance. Replica sets themselves are C26.',
+             ref='DESIGN.md §4 C22'),
+ 'C26': dict(cat='other', tech='deductive for SimpleStrategy.make_token_replica_map (symbolic ownership and RF, rings of <=4/5 tokens), TokenMap.get_replicas, Metadata.rebuild_token_map/_update_keyspace; BOUNDED exhaustive native comparison with the transcribed Cassandra 4.x algorithm for NetworkTopologyStrategy.make_token_replica_map',
+             text='Mixed: SimpleStrategy and the lookup/rebuild functions are verified by contract; NetworkTopologyStrategy (nested index-juggling loops) is only checked exhaustively on small rings (<=3/4 hosts x 2 DCs x 2/3 racks x <=2 tokens, every interleaving, RF 0..3 per DC) plus random larger rings - bounded, not proved.',
+             ref='DESIGN.md §4 C26'),
 }
 
 NA_REASON = {}
